@@ -33,8 +33,8 @@ Requests (after the `C16` token):
 * `filert grid|field|basis <c|f|-> <name> <fmt|-> <tree>` — `write_*(x, name, fmt)` then
   `read_*(name, fmt)` (`writeGridFile` … `readBasisFile`; layout for the pickle of a field):
   `ok w=<ok|kind> fam=<asdf|fits|pickle|-> r=<ok|kind|-> out=<tree|->`
-* `chain grid|field <c|f|-> <name:fmt,name:fmt,…> <tree>` — a chain of file round trips (`gridChain`,
-  `fieldChain`): `ok <tree of the last object read>` or `err <kind>`
+* `chain grid|field|basis <c|f|-> <name:fmt,name:fmt,…> <tree>` — a chain of file round trips (`gridChain`,
+  `fieldChain`, `basisChain`): `ok <tree of the last object read>` or `err <kind>`
 -/
 namespace HcipyVerif.Driver.C16
 open HcipyVerif.Proto HcipyVerif.Serial
@@ -503,6 +503,10 @@ def step (st : St) : List String → St × String
         | .ok f, some l => (st, answer ((chainField l hs f).map Field.toDict))
         | .error e, _ => (st, "err " ++ showErr e)
         | _, none => (st, "bad-op")
+      else if what == "basis" then
+        match decodeBasis t with
+        | .ok b => (st, answer ((basisChain AsdfLib.observed hs b).bind ModeBasis.toDict))
+        | .error e => (st, "err " ++ showErr e)
       else (st, "bad-op")
     | _, _ => (st, "bad-op")
   | ["ravel", shape, idx] =>
